@@ -12,12 +12,13 @@ TRUSTED = [
     'models of calcVersion / segment length tied by correspondence',
 ]
 ASSUMPTIONS = []
-PARTIAL = 'first-fit = argmin is proved from the kernel-evaluated sortedness of the order lists; too_large_only_if is checked by exploration'
+PARTIAL = 'first-fit/minimality and length_agrees are theorems for QR and rMQR; the Micro QR scan and the too-large clause are exercised at every capacity boundary'
 MANIFEST = {
-    'technique': 'Lean 4: first-fit over a sorted order is an argmin (order lists kernel-evaluated), segment length = standard bit length; boundary payloads by differential runs',
-    'text': ('Props/C05.lean proves that the modelled calcVersion returns the first version of its order list that holds the segments, that the QR/Micro orders are increasing version '
-             'numbers and the rMQR height/width orders are sorted by that measure (kernel evaluation), and that the modelled segment length equals the standard\'s bit length. The rMQR area '
-             'order is NOT sorted by area on the pinned tree (finding D19). Minimality against the reference tables and the too-large clause are exercised at every capacity boundary.'),
+    'technique': 'Lean 4: calcVersion is a first-fit scan (QR: the minimal version; rMQR: the first fitting entry of an order list whose sortedness by height / width is kernel-evaluated), model segment length = standard bit length; boundary payloads by differential runs',
+    'text': ('QRV/Props/C05.lean proves: the model\'s segment length equals the standard\'s bit length for every mode, version and remainder class (kanji per character); QR calcVersion returns a version that '
+             'holds the segments and no smaller one does, and 0 only if none of 1..40 does; rMQR calcVersion returns the FIRST entry of the order list of the requested priority that holds them, and the height and '
+             'width lists are sorted by that measure (kernel evaluation), hence a version of least height / width. The area list is NOT sorted by area on the pinned tree (finding D19). Minimality against the '
+             'independent reference tables and the too-large clause are exercised at every (version, level, mode) capacity boundary.'),
     'note': 'Trusted: Lean kernel; models tied by correspondence; reference capacities (rMQR rows not independent).',
 }
 
